@@ -66,7 +66,8 @@ class Monitor(object):
             if self.dup:
                 bound *= 2          # the caller itself queued lines twice
             if n == bound + 1:
-                self.bad('H5b', f'{line} evaluated {n} times but waited for only '
+                last = self.last.get(line)
+                self.bad('H5n' if last is not None and last[0] == 'nospec' else 'H5b', f'{line} evaluated {n} times but waited for only '
                                 f'{len(self.blocked_on.get(line, ()))} distinct things')
         elif k == 'V':
             _, line, val = ev
@@ -84,17 +85,17 @@ class Monitor(object):
             if self.refused:
                 self.bad('H4', f'prompt for {x} after the user refused to answer')
             if x in self.prompted:
-                self.bad('H3', f'{x} asked for more than once')
+                self.bad('H3a', f'{x} asked for more than once')
             if x in self.supplied or x in self.answered:
-                self.bad('H3', f'{x} asked for although it was already supplied')
+                self.bad('H3b', f'{x} asked for although it was already supplied')
             readers = self.missing_reads.get(x, set())
             if not readers:
-                self.bad('H3', f'{x} asked for although no evaluated line read it and found it absent')
+                self.bad('H3c', f'{x} asked for although no evaluated line read it and found it absent')
             extra = [n for n in nb if n not in readers]
             if extra:
-                self.bad('H3', f'{x}: quoted as needed by {extra}, which never read it')
+                self.bad('H3d', f'{x}: quoted as needed by {extra}, which never read it')
             if not nb:
-                self.bad('H3', f'{x}: asked for with an empty needed-by list')
+                self.bad('H3e', f'{x}: asked for with an empty needed-by list')
             self.prompted.append(x)
             self.open_prompt = x
         elif k == 'PR':
